@@ -6,16 +6,15 @@ import json, os, subprocess, sys
 rnd = sys.argv[1]
 props = [json.loads(l) for l in open("/verif/properties.jsonl")]
 tmpl = open("/verif/tools/mut/prompt.txt").read()
-HINT = ("Those families are exhausted; find something of a DIFFERENT family and a different site. Unused so far and welcome: the INTERACTION of two "
-        "features that are each fine alone (batch endpoint + admin-IP gate, key-addressed request + distributed account, import + legacy-format "
-        "records, account created at run time + permissions by regex, wallet lock + signing); differences between wallet TYPES (nd / hd / "
-        "keystore / distributed) in fetcher, unlocker and signer; resource limits (very long names, batches of 10^4..10^5 entries, deeply nested "
-        "patterns) where a limit or a truncation silently changes a decision; retries / timeouts / context values inside the DKG sender and "
-        "process service; the order in which main.go constructs and wires services (which of them share a locker, a store, a fetcher) and the "
-        "parsing of permissions / peers / ids from configuration (Go map ordering, duplicate keys, case, whitespace, numeric ids parsed with the "
-        "wrong width); migration between record versions in the rules store; maps guarded by the wrong mutex (or an RLock where a Lock is "
-        "needed) in fetcher / unlocker / process; the metrics (prometheus) and tracing wrappers when they alter a returned value; default-"
-        "constructed protobuf messages and optional fields; off-by-one at the first or last element, at index 0, at the empty batch. "
+HINT = ("Those families are exhausted; find something of a DIFFERENT family and a different site. Think about what a maintainer does in a real "
+        "pull request: upgrading or swapping a dependency call (badger / gRPC / zerolog / bls API used slightly differently), adding a feature flag "
+        "or configuration option whose default or absence changes behaviour, deduplicating two similar functions into one helper that is right "
+        "for one caller only, changing a data structure (map to slice, slice to map, adding an index) with a subtle loss of ordering or "
+        "uniqueness, adding validation that normalises its input, adding a fast path that skips a step the slow path performs, moving a "
+        "statement across a defer / lock / error check, goroutine + channel plumbing with the wrong buffer size or a missing wait, "
+        "time-based logic (TTL, backoff, rate limit) around security-relevant state, error values compared with == after being wrapped, "
+        "integer conversions between uint64 / int64 / int / uint32 at API boundaries, reuse of a variable captured by a closure, "
+        "shadowed variables, range-loop variable pointers, partial writes when the second of two related writes fails. "
         "It must be realistic, hard to spot, compile, pass the existing tests, and genuinely break THIS property.")
 for p in props:
     pid = p["id"]
